@@ -72,6 +72,10 @@ def run(rep):
              'keeps non-None results in order / calls all handlers', floor=5)
     rep.rule('R08.6', 'all nine entry points are delegated from the registry '
              'to its lookup object', floor=1)
+    rep.rule('R08.7', 'verifying registries: every entry point (Python '
+             'overrides and every VB_* C entry) runs the generation check '
+             'before its worker, so all entry points see the same cache state',
+             floor=8)
     rep.decline('none - relative to C04/C05/C07')
 
     lookup = find_def(mod, 'LookupBase.lookup')
@@ -334,5 +338,8 @@ def run(rep):
               'delegated entry points %s (missing %s)' % (sorted(got),
                                                           sorted(need - got)),
               node=cls)
+    from .C05 import inv5
     from . import cside
+    inv5(rep, mod, None, rule='R08.7')
+    cside.verify_first(rep, cside.cu(rep), rule='R08.7')
     cside.c08(rep)
